@@ -235,6 +235,8 @@ func (c *connectClient) WriteRequestHeader(streamType StreamType, header http.He
 		// the request until we see how large the payload is.
 		if c.CompressionName != "" && c.CompressionName != compressionIdentity {
 			header[connectStreamingHeaderCompression] = []string{c.CompressionName}
+		} else {
+			delete(header, connectStreamingHeaderCompression)
 		}
 	}
 	if acceptCompression := c.CompressionPools.CommaSeparatedNames(); acceptCompression != "" {
@@ -762,6 +764,10 @@ func (m *connectUnaryMarshaler) Marshal(message any) *Error {
 	uncompressed := bytes.NewBuffer(data)
 	defer m.bufferPool.Put(uncompressed)
 	if len(data) < m.compressMinBytes || m.compressionPool == nil {
+		// The header map may already name an encoding: a Request that was sent
+		// compressed before, or headers copied from another call. This body
+		// isn't compressed.
+		m.header.Del(connectUnaryHeaderCompression)
 		return m.write(data)
 	}
 	compressed := m.bufferPool.Get()
